@@ -417,6 +417,9 @@ def main(argv):
             return 0
         if argv[0] == "replay":
             return run_replay(argv[1])
+        if argv[0] == "selftest":
+            # every historical defect, switched on in Layer I, must be rejected by its monitor in TLC
+            return subprocess.run([sys.executable, os.path.join(ROOT, "lib", "selftest.py")]).returncode
         prop = argv[0]
         tier = os.environ.get("VERIF_TIER", "quick")
         seed = int(os.environ.get("VERIF_SEED", "1"))
